@@ -458,8 +458,12 @@ class C21(HangJudge, Check):
             "coefficients 1..300 bits incl. 2^k, 2^k+-1, sign profiles all+/all-/alternating/random, dense/sparse/flat): "
             "p*q q*p p*p pow divides(p,p*q); kind conv (expression trees over x | x^(k/2),x^(k/3) | 2^(kx+c) | sin(x), "
             "with a vanishing unexpanded subterm at low rate): from_basic (automatic and explicit generator, ex flag) must "
-            "have the value of the recipe in the reported generator, as_symbolic(from_basic(e)) eq expand(e). Enumerated: "
-            "all ordered pairs of a small pool (zero, +-1, constants, x, cyclotomic factors, 64-bit edges) for each class. "
+            "have the value of the recipe in the reported generator, as_symbolic(from_basic(e)) eq expand(e) (for unexpanded "
+            "Expression coefficients: after expand). Enumerated: all ordered pairs of a small pool (zero, +-1, constants, x, "
+            "cyclotomic factors, 64-bit edges) for each class, and 16 constructed quadratic pairs (3..300-bit coefficients) "
+            "whose product has a raw Kronecker digit equal to 2^(N-1), the boundary of the signed-digit test. A program that "
+            "gives no answer in 25 s is split; an instruction that twice gives no answer alone in 25 s is reported as "
+            "non-terminating (all instructions have millisecond cost), anything else slow is skipped. "
             "Non-trivial: a Kronecker product with mixed-sign coefficients or a coefficient within 2 bits of the slot "
             "threshold, an operation with the zero polynomial, a true divides, or a from_basic with a non-symbol "
             "generator/unexpanded power; distinct by (kind, operands).")
@@ -472,7 +476,7 @@ class C21(HangJudge, Check):
                    "SYMENGINE_ASSERT (counted assert_seen, reported by C03)",
                    "UExprPoly results may store coefficients that are zero only after expansion (Expression has no zero test): "
                    "compared by value; degree/lc/size are then judged against the stored dictionary"]
-    tiers = {"quick": {"examples": 1300}, "thorough": {"examples": 40000}}
+    tiers = {"quick": {"examples": 1300}, "thorough": {"examples": 100000}}
     timeout = 40.0
     case_timeout = 240
 
@@ -957,7 +961,10 @@ class C21(HangJudge, Check):
             except Unsupported:
                 self.skip("symbolic_unsupported")
                 continue
-            numeric = all(pr.as_const(v) is not None for v in stored.values())
+            # structurally numeric coefficients: as_symbolic is then a sum of c*g**k terms, the expanded form.
+            # Expression coefficients are stored unexpanded (e.g. -(1 - a) - a), so for them only
+            # expand(as_symbolic) eq expand(e) is demanded
+            numeric = c in "IQ" or all(ent[1][0] in ("Integer", "Rational") for ent in d[2])
             if d[1][0] == "Pow" and d[1][1][0] != "Symbol":
                 # generators b**x: 2**(x+1) and 2*2**x are both expanded forms; only the value is judged
                 self.skip("eq_not_judged_for_exponential_generator")
